@@ -101,7 +101,7 @@ def option_reach(rep, model):
                           found=f'no unconditional raise on this branch (returns {T.brief(res, 60) if res else None})', key=f'OPTION-REACH@progress:axis={an}')
     K = grp.K
     bad = ('dict', tuple(sorted(dict(dict(K(1)[1]), burst_method=BOGUS[0]).items())))
-    for pos, kw in ((1, ('list', (K(0), bad))), (2, ('list', (K(0), K(1), bad)))):
+    for pos, kw in ((1, ('list', (K(0), bad))), (2, ('list', (K(0), K(1), bad))), ('1 of 3', ('list', (K(0), bad, K(1))))):       # last entries and a middle one
         ctx = SE.Ctx(model, no_inline=grp.NI + ('progress_bar',), kinds=dict({'sigs': 'ndarray'}, **{f'K{i}': 'dict' for i in range(6)}))
         res, _ = E.run(model, g.qual, {'sigs': grp.SIGS2, 'compute_features_kwargs': kw, 'axis': NONE, 'progress': NONE}, ctx=ctx)
         unc = [r for r in ctx.raises if r[0] == 'ValueError']
@@ -109,7 +109,7 @@ def option_reach(rep, model):
             rep.ok('OPTION-REACH', f'burst_method of entry {pos}:axis=None', unc[0][2], found='unknown burst method rejected')
         else:
             rep.violation('OPTION-REACH', f'burst_method of entry {pos}:axis=None', gsite, expected='ValueError for an unknown burst_method in a per-epoch option set',
-                          found='the entry is skipped silently: its epoch keeps the labels of the first option set', key=f'OPTION-REACH@burst_method:entry{pos}')
+                          found='the entry is skipped silently: its epoch keeps the labels of the first option set', key=f'OPTION-REACH@burst_method:entry{str(pos).replace(" ", "")}')
 
 
 def validation_helper(fn):
